@@ -1,7 +1,7 @@
 #!/usr/bin/env python3
 """Confirms seeded property-breaking changes and runs the checks against them.
 
-  tools/seedeval.py import <src-dir> <ID>      copy /tmp/seed/<ID>/m* into /verif/seeded/<ID>/ after confirming
+  tools/seedeval.py import <src-dir> <ID> [prefix]  copy /tmp/seed/<ID>/m* into /verif/seeded/<ID>/ after confirming
                                                each one in a scratch worktree (compiles, tests pass, demo fails
                                                on the patched tree and passes on the clean one)
   tools/seedeval.py run <ID> [mN] [--tier t]   apply each kept patch to /repo, run ./check <ID>, undo, record
@@ -70,7 +70,7 @@ def confirm(src, wt):
     return res
 
 
-def do_import(srcroot, pid):
+def do_import(srcroot, pid, prefix=""):
     wt = f"/tmp/wt-confirm-{pid}"
     sh(f"git -C {REPO} worktree remove --force {wt}")
     rc, out = sh(f"git -C {REPO} worktree add -q --detach {wt} HEAD")
@@ -90,7 +90,7 @@ def do_import(srcroot, pid):
                     if k in c:
                         print("   ", k, c[k][-600:])
                 continue
-            dst = os.path.join(ROOT, "seeded", pid, m)
+            dst = os.path.join(ROOT, "seeded", pid, prefix + m)
             os.makedirs(dst, exist_ok=True)
             for f in ("patch.diff", "demo_test.go"):
                 shutil.copy(os.path.join(src, f), os.path.join(dst, f))
@@ -139,7 +139,7 @@ def do_run(pid, only=None, tier="quick", checks=None):
 
 if __name__ == "__main__":
     if sys.argv[1] == "import":
-        do_import(sys.argv[2], sys.argv[3])
+        do_import(sys.argv[2], sys.argv[3], sys.argv[4] if len(sys.argv) > 4 else "")
     elif sys.argv[1] == "run":
         args = sys.argv[2:]
         tier = "quick"
